@@ -123,12 +123,19 @@ pub fn evaluate(ctx: &Ctx, knobs: &GenKnobs, calls: &[CallRec], exchanges: &[Exc
     let records = &core.records;
     signature(ctx, calls, exchanges);
     panics(ctx, calls, exchanges);
+    // blocking runs execute their calls strictly one after the other
+    let sequential = !is_async || calls.len() == 1;
+    if exchanges.iter().any(|e| e.registered != (true, true)) {
+        // a runtime built with one encoding only refuses ordinary requests and cannot answer in
+        // the encoding an ordinary client asks for: only the request-body oracle knows that
+        c07(ctx, calls, exchanges, records);
+        c06(ctx, calls, exchanges, records, sequential);
+        return;
+    }
     c04(ctx, calls, exchanges, records);
     c07(ctx, calls, exchanges, records);
     c09(ctx, knobs, calls, exchanges);
     c19(ctx, calls, exchanges);
-    // blocking runs execute their calls strictly one after the other
-    let sequential = !is_async || calls.len() == 1;
     c06(ctx, calls, exchanges, records, sequential);
     c18(ctx, calls, exchanges, records, sequential);
 }
@@ -897,6 +904,10 @@ fn c06(ctx: &Ctx, calls: &[CallRec], exchanges: &[Exchange], records: &[Record],
         } else {
             match judge::encoding_of(ct) {
                 Err(_) => (Want::Reject("bad_content_type"), None),
+                Ok(enc) if !(if enc == Enc::Json { ex.registered.0 } else { ex.registered.1 }) => {
+                    ctx.count("probe.c06_encoding_not_registered");
+                    (Want::Reject("encoding_not_registered"), None)
+                }
                 Ok(enc) => {
                     let w = if fail.is_some() {
                         Want::Reject("stream_error")
@@ -1140,7 +1151,22 @@ fn c18(ctx: &Ctx, calls: &[CallRec], exchanges: &[Exchange], records: &[Record],
         match (&want, &call.result) {
             (_, CallResult::Panic(_)) | (_, CallResult::Cancelled) | (_, CallResult::NotRun) => {}
             (WantC::Err(why), CallResult::Ok(v)) => {
-                ctx.violation("C18", format!("accepted:{}:{}", why, meta.ret_kind_name()), format!("{}: client returned {} from a response that must be refused ({}): {}", who, v.render(), why, describe()));
+                // one narrow class has a name of its own (a recorded finding): the body is not UTF-8,
+                // yet passes a grammar-only skim - the bad bytes sit inside text the decoder skips
+                // (an unknown member, or the whole body of an endpoint without a return value)
+                let skipped_text = *why == "malformed"
+                    && json_ct
+                    && std::str::from_utf8(&eff).is_err()
+                    && serde_json::from_slice::<serde::de::IgnoredAny>(&eff).is_ok();
+                if skipped_text {
+                    ctx.violation(
+                        "C18",
+                        "accepted:invalid_utf8_inside_skipped_text",
+                        format!("{}: client returned {} from a body that is not UTF-8 (the bytes sit in text the decoder skips): {}", who, v.render(), describe()),
+                    );
+                } else {
+                    ctx.violation("C18", format!("accepted:{}:{}", why, meta.ret_kind_name()), format!("{}: client returned {} from a response that must be refused ({}): {}", who, v.render(), why, describe()));
+                }
             }
             (WantC::Err(_), CallResult::Err(_)) => {
                 ctx.count("probe.c18_error_as_expected");
